@@ -81,6 +81,13 @@ def _case(draw, tier, names):
     c["steps"] = steps
     # sort-backed entries: in memory or via chunk files (cache=False must hold for both strategies)
     c["buffersize"] = draw(st.sampled_from([None, None, 1, 2, 3]))
+    # "noedit" histories: no source edit at all, the view is built with its DEFAULT arguments (cache=True where there is a
+    # cache), the chunk size - if any - comes from petl.config.sort_buffersize, and between the passes the process-wide
+    # defaults (petl.config.failonerror, sort_buffersize) are changed: a view is configured when it is built
+    c["noedit"] = draw(st.integers(0, 3)) == 0
+    if c["noedit"]:
+        c["steps"] = [st_ for st_ in steps if st_[0] != "edit"] + [["full"]]
+        c["flips"] = [draw(st.sampled_from([None, None, "inline", True, "bs1", "bs-none"])) for _ in c["steps"]]
     return c
 
 
@@ -128,6 +135,66 @@ def _norm(e, r):
 
 
 def check(case, ctx):
+    if case.get("noedit"):
+        return check_noedit(case, ctx)
+    return check_edits(case, ctx)
+
+
+def check_noedit(case, ctx):
+    """No edits: one view, built with default arguments under the configuration of the moment; partial and full passes,
+    the process-wide defaults changed in between.  Every pass must deliver what a fresh view delivered at the start."""
+    import petl.config as cfg
+    e = catalog.get(case["entry"])
+    rows = [[list(r) for r in t] for t in case["sources"]]
+    ctx.label("entry:" + e.name, "noedit")
+    try:
+        exp = [_norm(e, r) for r in e.build(codec.snapshot(rows))]
+    except Exception as ex:
+        ctx.label("rejected:" + type(ex).__name__)
+        return None
+    old = (cfg.sort_buffersize, cfg.failonerror)
+    bs = case.get("buffersize")
+    try:
+        if bs is not None:
+            cfg.sort_buffersize = bs          # the chunk size comes from the configuration, not from an argument
+            ctx.label("config-buffersize")
+        try:
+            view = e.build(rows)
+        except Exception as ex:
+            return exc_fail("reuse/%s/construct" % e.name, ex)
+        npass = 0
+        for step, flip in zip(case["steps"], case.get("flips") or [None] * len(case["steps"])):
+            try:
+                it = iter(view)
+                if step[0] == "partial":
+                    got = []
+                    for i, r in enumerate(it):
+                        got.append(_norm(e, r))
+                        if i + 1 >= step[1]:
+                            break
+                    del it
+                else:
+                    got = [_norm(e, r) for r in it]
+            except Exception as ex:
+                return exc_fail("reuse/%s/noedit" % e.name, ex)
+            if got != exp[:len(got)] or (step[0] == "full" and got != exp):
+                return Fail("reuse/%s/noedit-pass-differs" % e.name, "pass %d (%s) of one view gave %r; a fresh view of the same sources gives %r "
+                            "(passes %r, config changes between them %r, config sort_buffersize at construction %r, sources %r)"
+                            % (npass, step[0], got, exp, case["steps"], case.get("flips"), bs, case["sources"]))
+            npass += 1
+            if flip in ("inline", True):
+                cfg.failonerror = flip
+            elif flip == "bs1":
+                cfg.sort_buffersize = 1
+            elif flip == "bs-none":
+                cfg.sort_buffersize = None
+    finally:
+        cfg.sort_buffersize, cfg.failonerror = old
+    ctx.nontrivial(npass >= 2 and len(exp) >= 2)
+    return None
+
+
+def check_edits(case, ctx):
     e = catalog.get(case["entry"])
     rows = [[list(r) for r in t] for t in case["sources"]]
     kw = {"cache": False} if (e.has("sorted") or e.has("hashcache")) else {}
@@ -192,7 +259,10 @@ RULE = (" Sub 'reuse' (pv/reuse.py): for the catalogue entries of this family, O
         "header only), its source lists are edited (rows appended / deleted / replaced, all rows removed, two columns swapped, "
         "a column inserted - rows are replaced, never mutated in place), and it is iterated again, up to three rounds; every "
         "pass must equal a pass of a view freshly built on copies of the current sources (sort-backed and hash-cached entries "
-        "are built with cache=False). Non-trivial = a pass before and a checked pass after an effective edit.")
+        "are built with cache=False). One history in four has NO edit: the view is built with its default arguments (caches on), "
+        "the chunk size of its sorts - if any - is set through petl.config.sort_buffersize, passes are abandoned part-way, and "
+        "petl.config.failonerror / sort_buffersize are changed between the passes: every pass must still equal what a fresh view "
+        "gave at the start. Non-trivial = a pass before and a checked pass after an effective edit (no-edit: >= 2 passes).")
 
 
 def sub(pid, quick=3000, thorough=40000, names=None):
